@@ -830,9 +830,16 @@ func c15SortKVs(kvs []c15KV) {
 
 // IR for the xform streams: the shared generator plus the shapes some transformations need
 // (string constants for constant_to_enum, padded enum values for trim_enum_values).
-func (g *c15Gen) schemas() ast.Schemas {
+func (g *c15Gen) schemas() (ss ast.Schemas) {
 	r := g.r
-	ss := genSchemas(r, g.o)
+	// the shared generator can dereference a nil kind pointer of its own malformed nodes
+	// (irgen.go: `b.IsRef()` on a `Type{Kind: ref}` without Ref); such a draw is skipped
+	defer func() {
+		if rec := recover(); rec != nil {
+			ss = nil
+		}
+	}()
+	ss = genSchemas(r, g.o)
 	for _, s := range ss {
 		if r.chance(30) {
 			name := pick(r, []string{"Kind", "Const", "kind", "Version"})
@@ -906,6 +913,9 @@ func init() {
 			g := &c15Gen{r: newRng(uint64(seed)*1000003 + uint64(i)*7919 + 15), o: defaultIRGenOpts(args["tier"]), tier: args["tier"]}
 			g.o.malformed = args["malformed"] == "1"
 			ss := g.schemas()
+			if ss == nil {
+				continue
+			}
 			c := &c15Case{in: ss, steps: []*c15Step{g.step(names[i%len(names)], ss)}}
 			c15Emit(out, c)
 		}
@@ -919,6 +929,9 @@ func init() {
 		for i := 0; i < n; i++ {
 			g := &c15Gen{r: newRng(uint64(seed)*1000003 + uint64(i)*7919 + 16), o: defaultIRGenOpts(args["tier"]), tier: args["tier"]}
 			ss := g.schemas()
+			if ss == nil {
+				continue
+			}
 			c := &c15Case{in: ss}
 			k := 2 + g.r.intn(maxlen-1)
 			cur := ss
